@@ -283,6 +283,41 @@ func (c *Cluster) SendViolations() []string {
 
 func (c *Cluster) WalViolations() []string {
 	var out []string
+	// log matching on what is durable and committed: two replicas of a partition never hold entries of different terms
+	// at an index both of them have made durable as committed
+	type view struct {
+		node int
+		d    sim.Durable
+	}
+	byPart := map[uuid.UUID][]view{}
+	for _, n := range c.Nodes {
+		n.mu.Lock()
+		for id, m := range n.Mons {
+			byPart[id] = append(byPart[id], view{n.I, m.DurableView()})
+		}
+		n.mu.Unlock()
+	}
+	for id, vs := range byPart {
+		for a := 0; a < len(vs); a++ {
+			for b := a + 1; b < len(vs); b++ {
+				hi := vs[a].d.Commit
+				if vs[b].d.Commit < hi {
+					hi = vs[b].d.Commit
+				}
+				for i := hi; i > 0; i-- {
+					ta, oka := vs[a].d.Terms[i]
+					tb, okb := vs[b].d.Terms[i]
+					if !oka || !okb || i <= vs[a].d.SnapIndex || i <= vs[b].d.SnapIndex {
+						break
+					}
+					if ta != tb {
+						out = append(out, fmt.Sprintf("partition %x: node %d holds an entry of term %d at index %d, node %d one of term %d, and both have made that index durable as committed", id[:4], vs[a].node, ta, i, vs[b].node, tb))
+						break
+					}
+				}
+			}
+		}
+	}
 	for _, n := range c.Nodes {
 		n.mu.Lock()
 		for id, m := range n.Mons {
